@@ -36,7 +36,7 @@ ASSUMPTIONS = [
     'A parse that raises is compared by exception type (crashes themselves '
     'are C06\'s business).',
 ]
-PROFILE = gen.profile(max_top=7, max_block=3, max_depth=2, max_pop=4,
+PROFILE = gen.profile(routine_in_blocks=True, max_top=7, max_block=3, max_depth=2, max_pop=4,
                       prelude_routines=2, w_units=2, w_timeat=2, w_print=6)
 
 
@@ -52,7 +52,16 @@ def damage(tokens, how, position, filler):
         return tokens[:position] + tokens[position + 1:]
     if how == 'duplicate':
         return tokens[:position + 1] + tokens[position:]
+    if how == 'misplaced':
+        # a keyword that is only legal inside some construct, put in front of
+        # the whole text: accepted only if the compiler believes it is still
+        # inside such a construct left open by an earlier text
+        return [MISPLACED[position % len(MISPLACED)]] + tokens
     return tokens[:position] + [filler] + tokens[position + 1:]
+
+
+MISPLACED = ['break', 'return', 'end', 'stage', 'else', 'row', 'column',
+             'with', 'as', 'default']
 
 
 @st.composite
@@ -60,7 +69,8 @@ def text_items(draw):
     case = draw(gen.programs(PROFILE))
     tokens = printer.token_texts(printer.tokens(case['program']))
     how = draw(st.sampled_from(['valid', 'valid', 'truncate', 'truncate',
-                                'delete', 'duplicate', 'replace']))
+                                'delete', 'duplicate', 'replace',
+                                'misplaced']))
     if how == 'valid':
         return {'text': ' '.join(tokens), 'how': how}
     position = draw(st.integers(0, 400))
